@@ -52,7 +52,13 @@ ASSUMPTIONS = [
     "sys.dont_write_bytecode is set while the histories run (no __pycache__ beside the module files; that cache is C15's subject)",
 ]
 TRUSTED_EXTRA = [
-    "C14: tools/regen_lookup.py (LRU threshold, _check comparison operator, TemplateLookup defaults)",
+    "C14: tools/regen_lookup.py - an AST recogniser of: the LRU threshold, _manage_size's loop condition / sort "
+    "direction / slice, the _check comparison operator, the TemplateLookup defaults and the LRUCache(collection_size) "
+    "call, whether _load hands a second-chance hit to _check, and in Template._compile_from_file the staleness test "
+    "(exists / mtime < filemtime), its position before the first load_module, and the file-name re-check "
+    "`module._template_filename != filename` - accepted bare or with the same one-argument normalisation on both "
+    "names (e.g. os.path.normpath(...) != os.path.normpath(...)); that the model's (directory, uri) file names make "
+    "'equal up to normpath' plain equality is an assumption of the recogniser, not a proved fact",
     "C14: the simulated clock shims in harness/props/C14.py",
 ]
 
